@@ -6,7 +6,16 @@ props = [json.loads(l) for l in open(os.path.join(V, "properties.jsonl"))]
 
 ABM_TECH = "TLA+ spec (spec/Abm.tla) + TLC exhaustive invariants; TLC-generated behaviours (all short histories + long random ones) replayed into the implementation with the observation compared after every action"
 SRV_TECH = "TLA+ spec (spec/Server.tla) + TLC exhaustive invariants/action properties; TLC-generated request histories replayed into a real BptkServer (Flask test client, controlled clock, FileAdapter on a scratch directory) with every response compared"
+EXPR_TECH = "TLA+ spec (spec/Expr.tla + spec/Rat.tla: expression trees, exact rational reference semantics, concrete-syntax renderers) enumerated exhaustively by TLC; every enumerated tree evaluated by the implementation and compared with the spec's value"
 CHECKS = {
+ "C02": dict(cat="model_checking", ref="6/C02",
+    text="spec/Expr.tla: TLC enumerates every (outer operator, operand position, inner operator) nesting of + - * / ** % and the six comparisons with element and literal operands (both operand orders, so __radd__/__rsub__/__rmul__ routes are taken), unary minus, abs/sqrt/exp/round/min/max wrappers inside and around operators, If/And/Or/Not forms, depth-3 associativity chains and the complete depth-2 enumeration (353k trees; sampled in the quick tier, exhaustive in the thorough tier), each with its exact rational value in 5 operand environments chosen so that every pair of groupings differs (TLC-checked: Separates); the fully parenthesised Python text of each tree is evaluated over real DSL constants and the converter value compared",
+    note="reference undefined (skipped, counted) at discontinuities; a nesting the DSL rejects with an exception conforms; array aggregates are covered under C10",
+    tech=EXPR_TECH),
+ "C03": dict(cat="translation_validation", ref="6/C03",
+    text="spec/Expr.tla renders every enumerated tree as XMILE equation text in three spellings (minimal parentheses per the XMILE precedence table, redundant parentheses, no whitespace) and the harness adds three variable-naming shapes (plain, declared with spaces / referenced with underscores, differing letter case); documents of 400 equations are compiled with compile_xmile and every variable of the generated model is evaluated and compared with the spec's exact value in 5 environments; pure-arithmetic equations must be accepted, equations outside the grammar (unknown functions, dangling operators) must fail loudly",
+    note="reference: XMILE precedence (^ right-assoc above unary minus); MOD only for non-negative operands; IF/comparison/AND/OR/NOT/built-in forms may be rejected loudly by the PEG grammar; multi-model (module) documents are not generated",
+    tech=EXPR_TECH + " (programs = generated XMILE documents)"),
  "C18": dict(cat="model_checking", ref="6/C18",
     text="spec/StepLock.tla: each stepping request is a process over the critical sections try-lock / read clock / write clock / unlock (plus client abort of a stream); TLC explores every interleaving of 2 and 3 concurrent requests of all kind combinations and checks Exclusive, Serial, Consecutive, NoDup, ClockExact, Released, RefusedNothing; the three deviations of the old code (check-then-lock, run-step without lock, stream without unlock) each violate a clause in the spec. Every schedule emitted by TLC (sampled for 3 requests) is forced on the real server by a line-level scheduler (request threads park at the anchor source lines), the five clauses are evaluated on the real responses/clock/lock/session-results/follow-up step, and the recorded event traces (lock flag and clock after every segment) are validated by TLC against spec/StepLockTrace.tla with all invariants evaluated in every trace state",
     note="anchors are found by text at run time (missing anchors = machinery failure, exit 2); preemption inside one anchor line is not explored; N=2, stop=3",
